@@ -62,9 +62,33 @@ func cleanupEndpoint() {
 	}
 }
 
-// names that survive a JSON string unchanged (valid UTF-8)
+// frame names of the endpoint stream: plain text, text that needs JSON escaping, control bytes (0x01, 0x0b), DEL, and
+// bytes that are not valid UTF-8 (latin-1, 0xff).  What arrives in the body is compared with the name as
+// encoding/json itself transports it (jsonName below: invalid UTF-8 becomes U+FFFD, everything else is unchanged);
+// the names are pairwise distinct after that projection.
 var epNames = [][]byte{[]byte("a"), []byte("b"), []byte("c"), []byte("other"), []byte("total"), []byte("main"),
-	[]byte("x"), []byte("a b"), []byte("été"), []byte("<&>")}
+	[]byte("x"), []byte("a b"), []byte("été"), []byte("<&>"), []byte("q\"uo\\te\ttab"),
+	[]byte("eval\x01tmpl"), []byte("\x0bvt"), []byte("del\x7fname"), []byte("caf\xe9.rb"), {0xff, 0xfe, 'z'}, {'u', 0xc3}}
+
+// jsonName: the name as a JSON string carries it (reference: encoding/json on a plain Go string)
+func jsonName(b []byte) []byte {
+	enc, err := json.Marshal(string(b))
+	if err != nil {
+		return b
+	}
+	var out string
+	if json.Unmarshal(enc, &out) != nil {
+		return b
+	}
+	return []byte(out)
+}
+
+func jsonNames(n *tree.VerifNode) {
+	n.Name = jsonName(n.Name)
+	for _, c := range n.Children {
+		jsonNames(c)
+	}
+}
 
 func genEndpoint(r *rand.Rand) Input {
 	g := &genCtx{r: r, left: lib.Range(r, 1, 12), maxDepth: lib.Range(r, 1, 4), selfs: smallSelf}
@@ -146,6 +170,25 @@ func runEndpoint(in Input) (res lib.Result) {
 		rendered = out.Tree
 	}
 	dump := rendered.VerifDump()
+	unusual := 0
+	var cnt func(n *tree.VerifNode)
+	cnt = func(n *tree.VerifNode) {
+		if !bytes.Equal(jsonName(n.Name), n.Name) {
+			unusual++
+		} else {
+			for _, c := range n.Name {
+				if c < 0x20 || c == 0x7f {
+					unusual++
+					break
+				}
+			}
+		}
+		for _, c := range n.Children {
+			cnt(c)
+		}
+	}
+	cnt(dump)
+	jsonNames(dump) // projection: names as a JSON document can carry them
 
 	var runs []string
 	classes := map[string]int{}
@@ -173,18 +216,19 @@ func runEndpoint(in Input) (res lib.Result) {
 			Flamebearer *tree.Flamebearer `json:"flamebearer"`
 		}
 		if err := json.Unmarshal(rec.Body.Bytes(), &body); err != nil || body.Flamebearer == nil {
-			return lib.Result{Crash: fmt.Sprintf("/render body is not the expected JSON for max-nodes=%q", p)}
+			return lib.Result{Crash: fmt.Sprintf("/render answered 200 but the body (%d bytes) does not decode as the flamebearer JSON for max-nodes=%q", rec.Body.Len(), p)}
 		}
 		runs = append(runs, coqRunP(0, body.Flamebearer, 0, lib.Some(lib.Bytes([]byte(raw))), in.Default))
 		classes[paramClass(p)]++
 	}
-	coq := "{| c_tree := " + treeu.Coq(dump) + "; c_runs := " + lib.List(runs) + "; c_seq := [] |}"
+	coq := "{| c_tree := " + treeu.Coq(dump) + "; c_runs := " + lib.List(runs) + "; c_seq := []; c_conc := [] |}"
 	nodes := treeu.Size(dump)
 	return lib.Result{
 		Coq:        coq,
 		NonTrivial: nodes > in.Default || nodes > 2,
 		Feat: map[string]interface{}{"kind": in.Kind, "via": "endpoint", "nodes": nodes, "slots": in.Slots,
-			"config_default_vs_nodes": cmpClass(in.Default, nodes), "param_classes": len(classes)},
+			"config_default_vs_nodes": cmpClass(in.Default, nodes), "param_classes": len(classes),
+			"names_ctrl_or_invalid_utf8": unusual},
 		Obs: map[string]interface{}{"runs": len(runs), "statuses": fmt.Sprint(statuses)},
 	}
 }
